@@ -365,6 +365,9 @@ end Interp
 section Ctl
 variable {K : Type} [Field K] [LinearOrder K] [IsStrictOrderedRing K]
 
+/-- the translator found every controller literal exactly once in the current source -/
+theorem gen_extraction_ok : Gen.extractionOK = true := by decide
+
 /-- the inequalities between the constants extracted from the current source that the controller
 theorems below rely on (re-proved by `norm_num` against `Gen/Controller.lean` on every run) -/
 theorem controller_constants_sane :
